@@ -16,7 +16,7 @@ RULE = ("one evaluation = one operation sequence over the store API run in lock-
 ASSUMPTIONS = ["SQLite's own atomic commit and the filesystem are trusted; only process death (os._exit) is modelled",
                "sessions use device id 1 and numeric recipient ids, as every caller in the library does",
                "one-time/signed prekeys are stored under fresh ids only (the library never overwrites an id)"]
-REQUIRED = ["reopen_right_after_again", "busy_start_cases", "busy_start_ok", "sequences", "reopen_checks", "replace_ops", "crash_children", "crash_died_inside", "crash_outcome:old",
+REQUIRED = ["profiles_cases", "profiles_ok", "profiles_ops", "reopen_right_after_again", "busy_start_cases", "busy_start_ok", "sequences", "reopen_checks", "replace_ops", "crash_children", "crash_died_inside", "crash_outcome:old",
             "crash_outcome:new", "conversation_restarts", "crash_kind:sql", "crash_kind:commit", "crash_kind:line",
             "manager_sequences", "manager_kill_snapshots", "manager_prekeys_generated", "crash_cases_with_in_process_history"]
 TIMEOUT = {"quick": 900, "thorough": 7200}
@@ -752,6 +752,83 @@ def busy_start_case(acc, seed, tag, mat):
         shutil.rmtree(os.path.dirname(path), ignore_errors=True)
 
 
+def profiles_case(acc, seed, tag, mat):
+    """Two or three profiles of one process, some of them for the same phone number (a main and a backup installation, say): each
+    profile's key store is its own file. Operations go to each through YowProfile(name).axolotl_manager; afterwards every
+    profile's file, opened on its own as after a restart, shows exactly what was stored through that profile."""
+    from yowsup.profile.profile import YowProfile
+    from yowsup.config.manager import ConfigManager
+    from yowsup.config.v1.config import Config
+    from yowsup.common.tools import StorageTools
+    from yowsup.axolotl.manager import AxolotlManager
+    from consonance.structs.keypair import KeyPair
+    r = gen.rng(seed, ID, tag)
+    phone = "4911" + gen.s_from(r, gen.DIGITS, 7)
+    other = "4922" + gen.s_from(r, gen.DIGITS, 7)
+    names = ["c13p_%s_%d_main" % (tag.replace("/", "_"), os.getpid()), "c13p_%s_%d_backup" % (tag.replace("/", "_"), os.getpid())]
+    phones = [phone, phone]
+    if r.random() < 0.5:
+        names.append("c13p_%s_%d_other" % (tag.replace("/", "_"), os.getpid()))
+        phones.append(other)
+    w = {"kind": "profiles", "tag": tag, "profiles": len(names)}
+    acc.count("profiles_cases")
+    acc.case(["prof", tag], nontrivial=True)
+    old_count = AxolotlManager.COUNT_GEN_PREKEYS
+    AxolotlManager.COUNT_GEN_PREKEYS = 3
+    models, paths = {}, {}
+    try:
+        for n_, ph in zip(names, phones):
+            ConfigManager().save(n_, Config(phone=ph, cc=ph[:2], pushname="N", client_static_keypair=KeyPair.generate()))
+            paths[n_] = os.path.join(StorageTools.getStorageForProfile(n_), "axolotl.db")
+        profs = {}
+        for rnd in range(r.randint(2, 4)):
+            order = list(names)
+            r.shuffle(order)
+            for n_ in order:
+                if n_ not in profs or r.random() < 0.3:
+                    profs[n_] = YowProfile(n_)       # (a new object for the same profile now and then)
+                store = profs[n_].axolotl_manager._store
+                if n_ not in models:
+                    models[n_] = Model()
+                    models[n_].local = read_store(store, mat).local
+                for _ in range(r.randint(1, 4)):
+                    op = gen_op(r, models[n_], mat)
+                    if op[0] in AGAIN:
+                        continue
+                    apply_store(op, store, mat)
+                    apply_model(op, models[n_], mat)
+                    acc.count("profiles_ops")
+        # as after a restart: each file opened on its own
+        locals_ = {}
+        for n_ in names:
+            if n_ not in models:
+                continue
+            s2 = open_store(paths[n_])
+            got = read_store(s2, mat)
+            close_store(s2)
+            locals_[n_] = got.local
+            d = model_diff(models[n_], got)
+            if d:
+                acc.violation("profiles:file-differs:%s" % d.split("[")[0], "profile %s (phone %s; %d profiles in the process, two for one number): its key store file does not hold what was stored through it: %s"
+                              % (n_.rsplit("_", 1)[-1], "shared" if n_ != names[-1] or len(names) == 2 else "own", len(names), d), w)
+                return
+        if len(set(v[1] for v in locals_.values())) != len(locals_):
+            acc.violation("profiles:identity-shared", "two profiles show the same local identity key", w)
+            return
+        acc.count("profiles_ok")
+    except Exception as e:  # noqa
+        import traceback
+        acc.violation("profiles:raises:%s" % type(e).__name__, "operations through profile objects raised %r (%s)" % (e, traceback.format_exc()[-300:]), w)
+    finally:
+        AxolotlManager.COUNT_GEN_PREKEYS = old_count
+        for n_ in names:
+            try:
+                close_store(YowProfile(n_).axolotl_manager._store) if False else None
+            except Exception:
+                pass
+            shutil.rmtree(StorageTools.getStorageForProfile(n_), ignore_errors=True)
+
+
 # ---------------------------------------------------------------------------------------------
 def conversation_case(acc, seed, tag, nsteps):
     """Two managers on file stores exchange messages; either side is restarted (new store + manager objects) at random."""
@@ -831,6 +908,7 @@ def shards(tier, seed, nworkers):
         specs.append({"kind": "conversation", "shard": i, "n": (120 if q else 6000) // nsh})
         specs.append({"kind": "manager", "shard": i, "n": (40 if q else 1600) // nsh})
         specs.append({"kind": "busy-start", "shard": i, "n": (8 if q else 400) // nsh})
+        specs.append({"kind": "profiles", "shard": i, "n": (24 if q else 1200) // nsh})
     return specs
 
 
@@ -852,6 +930,10 @@ def run(spec, acc):
             kind = CRASH_OPS[(i + sh) % len(CRASH_OPS)]
             crash_case(acc, seed, tag, mat, kind, prefix_len=[0, 3, 8, 15][i % 4], lines=(i % 3 != 2))
         acc.sample({"crash": "kill at every SQL statement/commit/line boundary of the last op", "ops": CRASH_OPS})
+    elif spec["kind"] == "profiles":
+        for i in range(spec["n"]):
+            profiles_case(acc, seed, "prof/%d/%d" % (sh, i), mat)
+        acc.sample({"profiles": "2-3 profiles in one process, two of them for the same phone number; each key store file is read on its own afterwards"})
     elif spec["kind"] == "busy-start":
         for i in range(spec["n"]):
             busy_start_case(acc, seed, "busy/%d/%d" % (sh, i), mat)
@@ -880,6 +962,8 @@ def replay(spec, acc):
         crash_case(acc, seed, tag, mat, w["opkind"], w["prefix_len"], w["lines"])
     elif w["kind"] == "busy-start":
         busy_start_case(acc, seed, tag, mat)
+    elif w["kind"] == "profiles":
+        profiles_case(acc, seed, tag, mat)
     elif w["kind"] == "manager":
         manager_case(acc, seed, tag, len(w.get("ops", [])) or 5, mat)
     else:
